@@ -77,7 +77,11 @@ Judge(conns, cfg, p) ==
         cn0 == IF live0 THEN conns[c] ELSE IF creates THEN NewConn(p) ELSE <<>>
         cn1 == IF tracked THEN Upd(cn0, p) ELSE <<>>
         fin == tracked /\ Finished(cn1)
-        over == tracked /\ (p.chunks > cfg.maxChunks \/ p.bytes > cfg.maxBytes)
+        \* without a termination callback (cfg.termcb = FALSE) the follower has to drop what it terminates all the same; the driver then
+        \* reports a connection that vanished without a closed callback as the termination, but it can no longer look at what the
+        \* connection held: the report itself stands for "over the limits" (a connection that is NOT dropped is still looked at)
+        over == tracked /\ (p.chunks > cfg.maxChunks \/ p.bytes > cfg.maxBytes
+                             \/ (~cfg.termcb /\ \E x \in Cbs("term") : x.c = c /\ x.r = "BUFFERED_DATA"))
         \* entries that MUST be gone (idle >= 2*keepAlive) and entries that MAY be gone (idle >= keepAlive) after this packet
         others == (DOMAIN conns) \ {c}
         mustGo == {d \in others : p.ts - conns[d].last >= 2 * cfg.keepAlive}
